@@ -717,6 +717,43 @@ func c07R4(c *Ctx) {
 		}
 		c.Check(ok && n > 0, rule, "jwt-strategy", fn, "jwt-exp-claim", "the exp claim of a JWT access token is GetExpiresAt(session, access_token)", "claims are built from another expiry", nil)
 	}
+	// ... and the claims builder really installs it: every implementation of
+	// JWTClaimsContainer.With stores its expiry argument into ExpiresAt on every path
+	// (unconditionally: a session that went through one issuance already carries the
+	// previous token's exp, which must not survive into the next token)
+	withs := c.P.Implementations(c.P.Iface(pkgJWT, "JWTClaimsContainer"), "With")
+	if len(withs) == 0 {
+		c.RoleUnmatched(rule, "jwt-claims-builder", "implementation of jwt.JWTClaimsContainer.With")
+	}
+	for _, fn := range withs {
+		ex := c.Explore(fn, ExploreConfig{}, "claims-with")
+		if !c.complete(ex, rule, "jwt-claims-builder", fn) {
+			continue
+		}
+		recv, expiry := paramNamed(fn, 0), paramNamed(fn, 1)
+		ok, n := true, 0
+		var w *Path
+		why := ""
+		for _, p := range ex.Paths {
+			if p.Kind != "return" {
+				continue
+			}
+			n++
+			stored := false
+			for _, e := range p.Events {
+				if e.Kind == "store" && e.Name == "ExpiresAt" && len(e.Args) == 2 {
+					stored = e.Args[1].Key() == expiry.Key()
+				}
+			}
+			if !stored {
+				ok, w, why = false, p, "a path returns without ExpiresAt having been set to the expiry argument"
+			}
+			if len(p.Rets) == 1 && !(p.Rets[0].Contains(recv.Key())) {
+				ok, w, why = false, p, "the returned container is not the receiver: "+clip(p.Rets[0].Pretty(), 80)
+			}
+		}
+		c.Check(ok && n > 0, rule, "jwt-claims-builder", fn, "with-installs-expiry", "JWTClaimsContainer.With sets ExpiresAt to its expiry argument on every path and returns the receiver", why, w)
+	}
 	// device expires_in from the stored user_code expiry
 	uc := c.constTerm(pkgRoot, "UserCode")
 	for _, fn := range c.Calling(c.DeviceFns(), ".CreateDeviceAuthSession") {
